@@ -183,9 +183,13 @@ func c04plan(tier string, seed int64) []run.Job {
 		jobs = append(jobs, run.Job{Family: "random", Seed: seed*100000 + 10000 + int64(i), N: per / 2, P: map[string]int{"strat": 0, "maxlen": 8, "inputs": 6}})
 		jobs = append(jobs, run.Job{Family: "random", Seed: seed*100000 + 20000 + int64(i), N: per / 2, P: map[string]int{"strat": 1, "lrfree": 1, "maxlen": 8, "inputs": 6}})
 		jobs = append(jobs, run.Job{Family: "mutual", Seed: seed*100000 + 50000 + int64(i), N: per / 2, P: map[string]int{"inputs": 6, "maxlen": 10}})
+		// hidden left recursion behind nullable prefixes of every result-list layout (zero-width alternative first / last / repeated)
+		jobs = append(jobs, run.Job{Family: "hidden", Seed: seed*100000 + 55000 + int64(i), N: per / 4, P: map[string]int{"inputs": 6, "maxlen": 9}})
 		jobs = append(jobs, run.Job{Family: "random", Seed: seed*100000 + 80000 + int64(i), N: per / 4, P: map[string]int{"strat": 1, "maxlen": 8, "inputs": 6, "ends": 1, "memoexpr": 0}})
 		// LeftTrim (all four whitespace modes) and End leaves have a reference meaning: acceptance is judged
 		jobs = append(jobs, run.Job{Family: "random", Seed: seed*100000 + 85000 + int64(i), N: per / 2, P: map[string]int{"strat": 1, "maxlen": 8, "inputs": 6, "trims": 1, "lefttrims": 1, "ends": 1, "memoexpr": 0}})
+		// ... and RightTrim in its never-failing mode around operands that return fresh nodes (several alternatives of different length, Optional)
+		jobs = append(jobs, run.Job{Family: "random", Seed: seed*100000 + 87000 + int64(i), N: per / 2, P: map[string]int{"strat": 1, "maxlen": 8, "inputs": 6, "trims": 1, "lefttrims": 1, "rtrimfresh": 1, "memoexpr": 0}})
 		jobs = append(jobs, run.Job{Family: "random", Seed: seed*100000 + 70000 + int64(i), N: per / 4, P: map[string]int{"strat": 0, "maxlen": 8, "inputs": 6, "trims": 1, "memoexpr": 0}})
 	}
 	jobs = append(jobs, enumJobs(maxNodes, false, 4, 300)...)
